@@ -125,7 +125,7 @@ def run(rep, tier, seed, rng):
                  else "implementation and proved model disagree on an expansion"),
                 dict(request=req, kind=kind, implementation=a, model=b,
                      decode="hex-encoded UTF-8; '.'=empty; policies E=error I=ignore D=defer M=empty"),
-                found_input=crashed or clean_shape(req))
+                found_input=crashed or clean_shape(req) or (kind == "envexpand" and a.startswith("ok") and b.startswith("ok")))
     # end to end: every string laze expands on its way to the ninja file (rule commands, export: entries of rules,
     # sources, outs, task commands), against the model that uses the proved expander
     from . import gen_common
